@@ -127,6 +127,11 @@ def extract(src_text):
     take('fn', 'unregister')
     take('fn', 'unregister_signal')
     take('fn', 'register_unchecked_impl')
+    # base case of the invariant: the value GlobalData::ensure publishes first
+    m = re.search(r'data:\s*HalfLock::new\((SignalData\s*\{[^{}]*\})\s*\)', src_text)
+    if not m:
+        raise Lost('anchor lost: `data: HalfLock::new(SignalData { .. })` not found in GlobalData::ensure')
+    items['__init_expr'] = {'first_line': src_text[:m.start(1)].count('\n') + 1, 'text': m.group(1), 'pre': [], 'sha256': hashlib.sha256(m.group(1).encode()).hexdigest()}
     # the Action alias must still be the trait object the opaque stand-in replaces
     if not re.search(r'^type Action = (dyn )?Fn\(&siginfo_t\) \+ Send \+ Sync;', src_text, re.M):
         raise Lost('anchor lost: `type Action = Fn(&siginfo_t) + Send + Sync;` not found')
@@ -186,8 +191,13 @@ def build(sc):
     lem = os.path.join(VDIR, 'lemmas.rs')
     if os.path.exists(lem):
         gen.append(open(lem).read().rstrip('\n'))
+    gen.append('// ---- EXTRACTED initial registry value (argument of HalfLock::new in GlobalData::ensure, line %d): base case of Inv' % items['__init_expr']['first_line'])
+    init_fn_first = lineno() + 1
+    gen.append('fn verif_initial_registry() -> (r: SignalData)\n    ensures sd_inv(r), sd_view(r) == Map::<c_int, SlotView>::empty(), // @OBL C05.V-INV-BASE\n{\n    broadcast use vstd::std_specs::hash::group_hash_axioms;\n    let r = ' + items['__init_expr']['text'] + ';\n    proof { assert(sd_view(r) =~= Map::<c_int, SlotView>::empty()); }\n    r\n}')
+    init_fn_last = lineno()
     obl_at = {}     # generated line number -> obligation id
-    fn_span = {}    # fn -> (first, last) generated line
+    fn_span = {'verif_initial_registry': (init_fn_first, init_fn_last)}    # fn -> (first, last) generated line
+    obl_at[init_fn_first + 1] = 'C05.V-INV-BASE'
     n_inserted = 0
     for fn in ('unregister', 'unregister_signal', 'register_unchecked_impl'):
         gen.append('// ---- EXTRACTED fn %s (line %d of %s) + contract overlay' % (fn, items[fn]['first_line'], SRC))
@@ -225,7 +235,7 @@ def build(sc):
 REFUTED = ('assertion failed', 'precondition not satisfied', 'postcondition not satisfied', 'possible arithmetic underflow/overflow',
            'possible division by zero', 'invariant not satisfied', 'index out of bounds', 'recommendation not met')
 ALL_OBL = ['C05.V-UNREG-IFF-LIVE', 'C05.V-PUBLISH-IFF-CHANGED', 'C05.V-REMOVE-ONLY-IT', 'C05.V-UNREG-SIGNAL', 'C05.V-REG-APPEND',
-           'C05.V-ID-FRESH', 'C05.V-INV', 'C05.V-NO-PANIC', 'C02.V-ID-MONO', 'C04.V-PREV-PUBLISHED', 'C14.V-ERR-NO-PUBLISH', 'C05.V-HISTORY']
+           'C05.V-ID-FRESH', 'C05.V-INV', 'C05.V-NO-PANIC', 'C02.V-ID-MONO', 'C04.V-PREV-PUBLISHED', 'C14.V-ERR-NO-PUBLISH', 'C05.V-HISTORY', 'C05.V-INV-BASE']
 
 
 def run_registry(sc, unit, pid, tier):
@@ -316,7 +326,7 @@ def run_registry(sc, unit, pid, tier):
                 continue
             fns = {fn_of(l) for l, x in obl_at.items() if x == o}
             if o == 'C05.V-NO-PANIC':
-                fns = set(fn_span)
+                fns = set(fn_span) - {'verif_initial_registry'}
             if o == 'C05.V-HISTORY':
                 fns = set()          # proved by the lemma functions (outside the extracted functions); errors there are `hard`
             if fns & bad_fns:
